@@ -46,14 +46,14 @@ def run(ck):
         vlib.conformance(ck, "G:all-texts-all-splits(%s,flags %d,len<=%d)" % (name, fl, n), "TraceTokSplit", "trace.cfg", tp,
                          deaths, diag_of, min_events=100, nshards=16, timeout=1800, split_every=4000)
     # ---- V
-    n = 6000 if thorough else 1000
+    n = 20000 if thorough else 1000
     tp = os.path.join(ck.dir, "v.ndjson")
     deaths = vlib.run_executions(exe, lambda st: ["tok", "split-drive", st, n], n, tp, timeout=1200)
     vlib.conformance(ck, "V:corpus-all-1-splits", "TraceTokSplit", "trace.cfg", tp, deaths, diag_of, min_events=n, timeout=1800,
                      split_every=500)
 
 
-    ns = 3000 if thorough else 400
+    ns = 10000 if thorough else 400
     tp = os.path.join(ck.dir, "s.ndjson")
     deaths = vlib.run_executions(exe, lambda st: ["tok", "stream-drive", st, ns], ns, tp, timeout=1200)
     vlib.conformance(ck, "V:streams-of-documents-resumed-at-the-reported-end", "TraceTokSplit", "trace.cfg", tp, deaths, diag_of_stream,
